@@ -5,14 +5,15 @@ cd $WT || exit 2
 git checkout -q -- . ; git clean -qfd -e out -e target
 DEMO=$(python3 -c "import json;print(json.load(open('$O/meta.json'))['demo_test'])")
 git apply $O/demo.diff || { echo "demo.diff does not apply"; exit 2; }
-( eval "$DEMO" ) >/tmp/vm_demo0.log 2>&1; r0=$?
+( eval "$DEMO" ) >/tmp/vm_$$_demo0.log 2>&1; r0=$?
 git apply $O/patch.diff || { echo "patch.diff does not apply"; exit 2; }
-( eval "$DEMO" ) >/tmp/vm_demo1.log 2>&1; r1=$?
+( eval "$DEMO" ) >/tmp/vm_$$_demo1.log 2>&1; r1=$?
 # suite with patch only
 git checkout -q -- . ; git clean -qfd -e out -e target
 git apply $O/patch.diff
-cargo test --workspace --no-fail-fast --offline >/tmp/vm_suite.log 2>&1; rs=$?
-passed=$(grep -E "^test result" /tmp/vm_suite.log | awk '{s+=$4} END {print s}')
-failed=$(grep -E "^test result" /tmp/vm_suite.log | awk '{s+=$6} END {print s}')
+cargo test --workspace --no-fail-fast --offline >/tmp/vm_$$_suite.log 2>&1; rs=$?
+passed=$(grep -E "^test result" /tmp/vm_$$_suite.log | awk '{s+=$4} END {print s}')
+failed=$(grep -E "^test result" /tmp/vm_$$_suite.log | awk '{s+=$6} END {print s}')
 git checkout -q -- . ; git clean -qfd -e out -e target
+rm -f /tmp/vm_$$_*.log
 echo "demo_without_patch_rc=$r0 demo_with_patch_rc=$r1 suite_rc=$rs passed=$passed failed=$failed"
